@@ -225,3 +225,45 @@ void h_tLweSymEncryptZero(void) {
     VERIF_REACH();
 }
 #endif
+
+#ifdef H_KSCREATE
+/* lweCreateKeySwitchKey on a small concrete shape (bounded stand-in, labelled): the table is built by the harness like the real
+ * constructor does; row (i,j,0) is the noiseless zero sample, row (i,j,h>=1) encrypts (s_i*h)*2^(32-(j+1)basebit) with noise entry
+ * of the recentred gaussian vector (WHICH entry, and the recentring arithmetic in doubles, are not decided: IEEE sums/divisions, DESIGN 8.2), all drawn with the output key's alpha_min */
+#define B_n VERIF_KS_N
+#define B_T VERIF_KS_T
+#define B_BB VERIF_KS_BB
+#define B_BASE (1 << B_BB)
+#define SIZEKS (B_n * B_T * (B_BASE - 1))
+static LweSample rows[B_n * B_T * B_BASE]; static LweSample *l1[B_n * B_T]; static LweSample **l0[B_n];
+static double draws[SIZEKS + 1]; static int nd; static int bad, n_triv, n_enc; static const LweKey *g_out; static double g_alpha;
+static Torus32 e_msg[SIZEKS + 1]; static double e_noise[SIZEKS + 1]; static long e_row[SIZEKS + 1];
+#undef verif_normal_draw
+static double ks_draw(verif_normal_t *d) { double x; __CPROVER_assume(x > -1.0 && x < 1.0); if (d->mean != 0.0 || d->sigma != g_alpha) bad++; if (nd <= SIZEKS) draws[nd] = x; nd++; return x; }
+#define verif_normal_draw ks_draw
+void lweNoiselessTrivial(LweSample *result, Torus32 mu, const LweParams *params) {
+    long r = result - rows; if (r < 0 || r >= B_n * B_T * B_BASE || r % B_BASE != 0 || mu != 0 || params != g_out->params) bad++; n_triv++; }
+void lweSymEncryptWithExternalNoise(LweSample *result, Torus32 message, double noise, double alpha, const LweKey *key) {
+    if (alpha != g_alpha || key != g_out) bad++;
+    if (n_enc <= SIZEKS) { e_msg[n_enc] = message; e_noise[n_enc] = noise; e_row[n_enc] = result - rows; }
+    n_enc++; }
+#include "extracted.inc"
+void h_b_createKeySwitchKey(void) {
+    for (int p = 0; p < B_n * B_T; p++) l1[p] = rows + B_BASE * p;
+    for (int p = 0; p < B_n; p++) l0[p] = l1 + B_T * p;
+    LweParams op; *(double *)&op.alpha_min = VERIF_ALPHA; *(int32_t *)&op.n = 3; LweParams ipar; *(int32_t *)&ipar.n = B_n; *(double *)&ipar.alpha_min = 0.25;
+    LweKeySwitchKey ks; ks.n = B_n; ks.t = B_T; ks.basebit = B_BB; ks.base = B_BASE; ks.out_params = &op; ks.ks0_raw = rows; ks.ks1_raw = l1; ks.ks = l0;
+    int32_t inkey[B_n]; LweKey in; in.params = &ipar; in.key = inkey; LweKey out; out.params = &op;
+    g_out = &out; g_alpha = op.alpha_min; nd = bad = n_triv = n_enc = 0;
+    lweCreateKeySwitchKey(&ks, &in, &out);
+    __CPROVER_assert(nd == SIZEKS && bad == 0, "n*t*(base-1) centred gaussian draws, all with the OUTPUT key's alpha_min; rows use that alpha and the output key");
+    __CPROVER_assert(n_triv == B_n * B_T && n_enc == SIZEKS, "one noiseless zero row per (i,j), one encryption per (i,j,h>=1)");
+    int e = 0;
+    for (int i = 0; i < B_n; i++) for (int j = 0; j < B_T; j++) for (int h = 1; h < B_BASE; h++) {
+        __CPROVER_assert(e_row[e] == (i * B_T + j) * B_BASE + h, "row (i,j,h) of the contiguous key array");
+        __CPROVER_assert(U32(e_msg[e]) == (U32(inkey[i]) * (uint32_t)h) * (1u << (32 - (j + 1) * B_BB)), "row (i,j,h) encrypts h*s_i/base^(j+1)");
+        e++;
+    }
+    VERIF_REACH();
+}
+#endif
